@@ -958,11 +958,201 @@ fn big_len(what: &str, n: usize, ctx: &mut Ctx) -> String {
     }
 }
 
+/// Largest declared size for which the harness itself calls the reference block decoders (they allocate it).
+const REF_CAP: usize = 1 << 26;
+
+/// `decomp <lz4|snappy> <body>`: any body (the driver's own output with a forged declared size, truncated, garbage)
+/// through the driver's `frame::decompress`. Output: `<ok HEX | err prefix|guard|header|codec> ref=<ok:HEX|err|skip|none>
+/// [len=<n|err>]`; `ref` / `len` are what the reference block decoders answer (the model's codec parameters).
+fn run_decomp(c: Compression, body: &[u8], ctx: &mut Ctx) -> String {
+    use scylla_cql::frame::frame_errors::{FrameBodyExtensionsParseError as E, LowLevelDeserializationError};
+    // reference decoders (parameters of the model)
+    let mut len_s = String::new();
+    let reference: Option<Result<Vec<u8>, ()>> = match c {
+        Compression::Lz4 => {
+            if body.len() < 4 {
+                None
+            } else {
+                let n = ((body[0] as usize) << 24) | ((body[1] as usize) << 16) | ((body[2] as usize) << 8) | body[3] as usize;
+                if n > REF_CAP { None } else { Some(lz4_flex::decompress(&body[4..], n).map_err(|_| ())) }
+            }
+        }
+        Compression::Snappy => match snap::raw::decompress_len(body) {
+            Err(_) => {
+                len_s = " len=err".into();
+                None
+            }
+            Ok(n) => {
+                len_s = format!(" len={n}");
+                if n > REF_CAP { None } else { Some(snap::raw::Decoder::new().decompress_vec(body).map_err(|_| ())) }
+            }
+        },
+    };
+    let ref_s = match (&reference, c, body.len() < 4) {
+        (None, Compression::Lz4, true) => "none".to_string(),
+        (None, Compression::Snappy, _) if len_s == " len=err" => "none".to_string(),
+        (None, _, _) => "skip".to_string(),
+        (Some(Ok(d)), _, _) => format!("ok:{}", hex(d)),
+        (Some(Err(())), _, _) => "err".to_string(),
+    };
+    fn is<T: std::error::Error + 'static>(e: &std::sync::Arc<dyn std::error::Error + Sync + Send>) -> bool {
+        (&**e as &(dyn std::error::Error + 'static)).downcast_ref::<T>().is_some()
+    }
+    let outcome = match scylla_cql::frame::decompress(body, c) {
+        Ok(d) => {
+            // model-independent: what the driver returns is what the reference decoder returns
+            match &reference {
+                Some(Ok(r)) if *r == d => {}
+                Some(_) => ctx.fail("frame::decompress returned bytes that differ from the reference block decoder's"),
+                None => {}
+            }
+            format!("ok {}", hex(&d))
+        }
+        Err(E::Lz4DecompressError(e)) => {
+            if is::<LowLevelDeserializationError>(&e) {
+                "err prefix".into()
+            } else if is::<std::io::Error>(&e) {
+                "err guard".into()
+            } else {
+                "err codec".into()
+            }
+        }
+        Err(E::SnapDecompressError(e)) => {
+            if is::<std::io::Error>(&e) {
+                "err guard".into()
+            } else if len_s == " len=err" {
+                "err header".into()
+            } else {
+                "err codec".into()
+            }
+        }
+        Err(_) => "err other".into(),
+    };
+    format!("{outcome} ref={ref_s}{len_s}")
+}
+
+fn varint(mut n: u64) -> Vec<u8> {
+    let mut v = Vec::new();
+    loop {
+        let b = (n & 0x7f) as u8;
+        n >>= 7;
+        if n == 0 {
+            v.push(b);
+            return v;
+        }
+        v.push(b | 0x80);
+    }
+}
+
+fn gen_decomp(rng: &mut Rng, scale: u64, emit: &mut dyn FnMut(String)) {
+    let datas = |rng: &mut Rng| -> Vec<u8> {
+        match rng.below(6) {
+            0 => vec![0u8; *rng.pick(&[0usize, 1, 63, 64, 65, 255, 256, 1000, 16384, 65536, 300000])],
+            1 => { let n = rng.below(300) as usize; rng.bytes(n) },
+            2 => (0..rng.below(3000) as usize).map(|i| (i % 7) as u8).collect(),
+            3 => vec![0x61u8; rng.below(70000) as usize],
+            _ => { let n = rng.below(40) as usize; rng.bytes(n) },
+        }
+    };
+    for _ in 0..400 * scale {
+        let data = datas(rng);
+        // LZ4: <declared size u32><block>; declared sizes around the truth and around the guard len*255+64
+        let block = lz4_flex::compress(&data);
+        let guard = block.len() as u64 * 255 + 64;
+        let declared: u64 = match rng.below(12) {
+            0 | 1 | 2 => data.len() as u64,
+            3 => (data.len() as u64).saturating_sub(1),
+            4 => data.len() as u64 + 1,
+            5 => guard.saturating_sub(1),
+            6 => guard,
+            7 => guard + 1,
+            8 => guard + 2,
+            9 => *rng.pick(&[0u64, 1 << 31, (1 << 32) - 1, 1 << 24, 65, 64]),
+            _ => rng.below(guard + 3),
+        }
+        .min((1 << 32) - 1);
+        let mut body = (declared as u32).to_be_bytes().to_vec();
+        body.extend_from_slice(&block);
+        emit(format!("decomp lz4 {}", hex(&body)));
+        // Snappy: <varint declared size><elements>; re-encode the preamble
+        let sb = snap::raw::Encoder::new().compress_vec(&data).unwrap();
+        let pre = varint(data.len() as u64).len();
+        let rest = &sb[pre..];
+        let pick = rng.below(12);
+        let mut body = sb.clone();
+        if pick >= 3 {
+            // find a declared size relative to the guard of the re-encoded body (its length depends on the varint)
+            for vl in 1..=5usize {
+                let guard = (vl + rest.len()) as u64 * 64 + 64;
+                let declared: u64 = match pick {
+                    3 => guard.saturating_sub(1),
+                    4 => guard,
+                    5 => guard + 1,
+                    6 => guard + 2,
+                    7 => (data.len() as u64).saturating_sub(1),
+                    8 => data.len() as u64 + 1,
+                    9 => *rng.pick(&[0u64, 1 << 31, (1 << 32) - 1, 1 << 24]),
+                    _ => rng.below(guard + 3),
+                };
+                let v = varint(declared);
+                if v.len() == vl || vl == 5 {
+                    body = v;
+                    body.extend_from_slice(rest);
+                    break;
+                }
+            }
+        }
+        emit(format!("decomp snappy {}", hex(&body)));
+    }
+    // truncated prefixes, garbage, empty
+    for n in 0..6usize {
+        emit(format!("decomp lz4 {}", hex(&vec![0u8; n])));
+        emit(format!("decomp lz4 {}", hex(&vec![0xffu8; n])));
+        emit(format!("decomp snappy {}", hex(&vec![0xffu8; n])));
+        emit(format!("decomp snappy {}", hex(&vec![0x00u8; n])));
+    }
+    for _ in 0..100 * scale {
+        let n = rng.below(40) as usize;
+        let g1 = rng.bytes(n);
+        let g2 = rng.bytes(n);
+        emit(format!("decomp lz4 {}", hex(&g1)));
+        emit(format!("decomp snappy {}", hex(&g2)));
+        // small declared size + garbage block
+        let mut b = (rng.below(300) as u32).to_be_bytes().to_vec();
+        b.extend({ let n = rng.below(20) as usize; rng.bytes(n) });
+        emit(format!("decomp lz4 {}", hex(&b)));
+    }
+    // exact guard edges on tiny blocks: 0-byte block (guard 64), 1-byte block (guard 319), Snappy 1-byte body (guard 128)
+    for d in [63u32, 64, 65, 318, 319, 320] {
+        let mut b = d.to_be_bytes().to_vec();
+        emit(format!("decomp lz4 {}", hex(&b)));
+        b.push(0);
+        emit(format!("decomp lz4 {}", hex(&b)));
+    }
+    for d in [127u64, 128, 129, 191, 192, 193] {
+        emit(format!("decomp snappy {}", hex(&varint(d))));
+    }
+    // the real codecs close to the guards: long zero runs (LZ4 reaches ~254x of the allowed 255x; Snappy ~21x of 64x)
+    for n in [1usize << 16, 1 << 20, 1 << 22] {
+        let data = vec![0u8; n];
+        let mut body = (n as u32).to_be_bytes().to_vec();
+        body.extend_from_slice(&lz4_flex::compress(&data));
+        emit(format!("decomp lz4 {}", hex(&body)));
+        emit(format!("decomp snappy {}", hex(&snap::raw::Encoder::new().compress_vec(&data).unwrap())));
+    }
+}
+
 pub fn run(case: &str, ctx: &mut Ctx) -> String {
     let w: Vec<&str> = case.split_whitespace().collect();
     if w.len() == 3 && w[0] == "biglen" {
         return match w[2].parse::<usize>() {
             Ok(n) if n <= (1usize << 31) + 16 => big_len(w[1], n, ctx),
+            _ => "bad-case".into(),
+        };
+    }
+    if w.len() == 3 && w[0] == "decomp" {
+        return match (comp_tok(w[1]), bytes_tok(w[2])) {
+            (Some(Some(c)), Some(body)) => run_decomp(c, &body, ctx),
             _ => "bad-case".into(),
         };
     }
@@ -1390,6 +1580,17 @@ pub fn generate(rng: &mut Rng, tier: Tier, emit: &mut dyn FnMut(String)) {
         emit(format!("startup none 0 N {}", pairs.join(" ")));
         let pairs: Vec<String> = (0..300).map(|i| format!("{}=31", hex(format!("k{i}").as_bytes()))).collect();
         emit(format!("startup lz4 0 N {}", pairs.join(" ")));
+    }
+
+    // (5b) frame::decompress on arbitrary bodies (declared sizes around the guards, truncated prefixes, garbage)
+    gen_decomp(rng, scale, emit);
+    // highly compressible request bodies: the real codecs closest to the decompress guards
+    for n in [4096usize, 65535, 262144, 1048576] {
+        for comp in ["lz4", "snappy"] {
+            emit(format!("prepare {comp} 0 N z{n}"));
+            emit(format!("auth {comp} 1 N z{n}"));
+            emit(format!("query {comp} 0 N 78 One N N N N 0 z{n}"));
+        }
     }
 
     // (6) 31-bit boundary of the length guards (lazily mapped zero pages; nothing is copied when the guard works)
